@@ -8,6 +8,7 @@ import (
 	"strings"
 	"testing"
 
+	"github.com/BondMachineHQ/BondMachine/pkg/simbox"
 	"pgregory.net/rapid"
 	"verifharness/gen"
 	"verifharness/pbt"
@@ -19,12 +20,17 @@ type Case struct {
 	Env    gen.Env
 	Ticks  int
 	Strict bool
+	Delays map[string]int `json:",omitempty"` // simulator only: opcode -> extra ticks (single-valued distribution)
 }
 
 func genCase(t *rapid.T) Case {
 	var c Case
 	nofan := rapid.IntRange(0, 2).Draw(t, "nofanout") == 0
-	c.Spec = gen.HandshakeMachine(t, gen.HSOptions{MaxProcs: 4, MaxPad: 3, NoFanout: nofan, EqualLoops: rapid.Bool().Draw(t, "equalloops"), Replicate: true, RichALU: rapid.Bool().Draw(t, "richalu")})
+	// port counts: mostly 1-2 per processor; sometimes up to 5 so that the input and the output field of
+	// the IO opcodes have different widths (1, 2, 3 bits) in every combination
+	ports := []int{2, 2, 3, 5}
+	maxIn, maxOut := rapid.SampledFrom(ports).Draw(t, "maxin"), rapid.SampledFrom(ports).Draw(t, "maxout")
+	c.Spec = gen.HandshakeMachine(t, gen.HSOptions{MaxProcs: 4, MaxPad: 3, MaxIn: maxIn, MaxOut: maxOut, NoFanout: nofan, EqualLoops: rapid.Bool().Draw(t, "equalloops"), Replicate: true, RichALU: rapid.Bool().Draw(t, "richalu")})
 	for i := 0; i < c.Spec.Inputs; i++ {
 		n := rapid.IntRange(0, 20).Draw(t, "nin")
 		var st []uint64
@@ -38,6 +44,33 @@ func genCase(t *rapid.T) Case {
 		c.Env.OutStall = append(c.Env.OutStall, rapid.IntRange(0, 4).Draw(t, "stall"))
 	}
 	c.Ticks = rapid.IntRange(60, 400).Draw(t, "ticks")
+	if rapid.IntRange(0, 2).Draw(t, "delays") == 0 {
+		// "regardless of how many clock cycles either takes": the simulator's per-opcode delay model
+		// stretches instructions; the delivered streams may not change
+		c.Delays = map[string]int{}
+		ops := map[string]bool{}
+		for _, ps := range c.Spec.Procs {
+			for _, l := range ps.Prog {
+				ops[strings.Fields(l)[0]] = true
+			}
+		}
+		names := make([]string, 0, len(ops))
+		for o := range ops {
+			names = append(names, o)
+		}
+		sort.Strings(names)
+		if rapid.Bool().Draw(t, "onelong") {
+			// one opcode stalls its processor for longer than a neighbour's whole loop
+			c.Delays[rapid.SampledFrom(names).Draw(t, "longop")] = rapid.IntRange(6, 16).Draw(t, "delay")
+		} else {
+			for _, o := range names {
+				if rapid.IntRange(0, 2).Draw(t, "hasdelay") == 0 {
+					c.Delays[o] = rapid.IntRange(1, 6).Draw(t, "delay")
+				}
+			}
+		}
+		c.Ticks *= 2
+	}
 	return c
 }
 
@@ -85,7 +118,7 @@ func netlist(files map[string]string, spec gen.BMSpec, wantBonds []string) *pbt.
 	if top == nil {
 		return pbt.Failf("no-top", "module bondmachine missing")
 	}
-	alias := map[string]string{}    // driven net -> driver net (assign A = B)
+	alias := map[string]string{} // driven net -> driver net (assign A = B)
 	assignRHS := map[string]vlog.Expr{}
 	insts := map[string]*vlog.InstItem{}
 	for _, it := range top.Items {
@@ -237,11 +270,25 @@ func prop(c Case) pbt.Outcome {
 	if fanout {
 		labels = append(labels, "fanout")
 	}
+	for _, ps := range c.Spec.Procs {
+		if gen.NeededBits(ps.N) != gen.NeededBits(ps.M) && ps.N > 0 {
+			labels = append(labels, "in/out-field-widths-differ")
+			break
+		}
+	}
 	if f := netlist(files, c.Spec, wantBonds); f != nil {
 		return pbt.Outcome{Labels: labels, Fail: f}
 	}
 	// stream equality
-	sr, err := gen.NewRunner(bm, c.Env, nil)
+	var delays *simbox.SimDelays
+	if len(c.Delays) > 0 {
+		delays = simbox.NewSimDelays()
+		for op, d := range c.Delays {
+			delays.OpcodeDelays[op] = simbox.DelayDistribution{int32(d): 1.0}
+		}
+		labels = append(labels, "sim-delays")
+	}
+	sr, err := gen.NewRunner(bm, c.Env, delays)
 	if err != nil {
 		return pbt.Outcome{Excluded: "sim-init-error"}
 	}
